@@ -418,9 +418,9 @@ def run_histories(ctx, cases, cache=10000):
     return [o["events"] for o in outs]
 
 
-def eval_cases(ctx, name, cases, outs, shard=40):
+def eval_cases(ctx, name, cases, outs, shard=40, strict=False):
     terms = [cq_case(e, o) for e, o in zip(cases, outs)]
-    defs = {"SM": "spec_accepts"}
+    defs = {"SM": "spec_accepts_strict" if strict else "spec_accepts"}
     if ctx.model_ok:
         defs["MM"] = "model_agrees"
     okc, res, lg = vlib.run_coq_cases(name, HEADER, terms, "hcase", defs, shard=shard)
